@@ -64,6 +64,20 @@ def battery():  # noqa: C901
     def rec(k, f):
         out.append([k, json.loads(json.dumps(_try(f), default=repr))])
 
+    # step 0: the user registers a new profile AFTER the history and validates a property of it (registry restored afterwards).
+    # It comes first so that in a fresh process nothing has read the registry before the registration.
+    reg_before = registry_view()
+    try:
+        rec('new profile: addProfile', lambda: cssutils.profile.addProfile('Vendor X', {'-x-switch': 'on|off'}))
+        rec('new profile: profiles / defaultProfiles', lambda: [list(cssutils.profile.profiles)[-1], list(cssutils.profile.defaultProfiles)[-1], len(cssutils.profile.defaultProfiles)])
+        rec('new profile: validate', lambda: [cssutils.profile.validate('-x-switch', 'on'), cssutils.profile.validate('-x-switch', 'bad')])
+        rec('new profile: validateWithProfile', lambda: [cssutils.profile.validateWithProfile('-x-switch', 'on'), cssutils.profile.validateWithProfile('-x-switch', 'bad')])
+        rec('new profile: Property.valid', lambda: [C.Property('-x-switch', 'on').valid, C.Property('-x-switch', 'bad').valid])
+        rec('new profile: parsed Property.valid', lambda: [[p.valid for p in r.style.getProperties(all=True)] for r in cssutils.parseString('a { -x-switch: on; -x-switch: bad; color: red }').cssRules])
+        rec('new profile: parsed style valid', lambda: cssutils.parseStyle('-x-switch: off').valid)
+    finally:
+        _try(lambda: cssutils.profile.removeProfile('Vendor X'))
+    rec('new profile: registry restored after removeProfile', lambda: registry_view() == reg_before or view_diff(reg_before, registry_view()))
     rec('global: raise mode', lambda: cssutils.log.raiseExceptions)
     rec('global: serializer is the initial object', lambda: cssutils.ser is _INITIAL.get('ser'))
     rec('global: preferences', lambda: sorted(vars(cssutils.ser.prefs).items()))
@@ -194,7 +208,11 @@ def _pool():  # noqa: C901
     P['CSSImportRule: rejected text'] = (False, lambda env: setattr(C.CSSImportRule(), 'cssText', '@import "x" tv foo;'))
     P['edit: rejected sheet text'] = (False, lambda env: setattr(cssutils.parseString('a{color:red}'), 'cssText', 'b{top:0} @import "x";'))
     P['edit: rejected media rule text'] = (False, lambda env: setattr(C.CSSMediaRule('print'), 'cssText', '@media tv foo { a { top: 0 } }'))
-    P['serialise: minified then defaults'] = (False, lambda env: _ser_roundtrip())
+    P['serialise: minified then defaults'] = (True, lambda env: _ser_roundtrip())
+    P['serialise: sheet, style, validity'] = (True, lambda env: (lambda s: (s.cssText, s.cssRules[-2].style.cssText, s.valid, [r.cssText for r in s.cssRules]))(
+        cssutils.CSSParser(fetcher=_fetch_ok).parseString(REFERENCE_SHEETS[1], href='http://example.com/s.css')))
+    P['validate: registry queries'] = (True, lambda env: (cssutils.profile.validate('color', 'red'), cssutils.profile.validateWithProfile('color', 'rgba(1,2,3,0.5)'),
+                                                            list(cssutils.profile.defaultProfiles), C.Property('left', '1px').valid))
     return P
 
 
@@ -211,11 +229,13 @@ def _in_log_mode(f):
 def _ser_roundtrip():
     import cssutils
     s = cssutils.parseString(REFERENCE_SHEETS[1])
+    saved = dict(vars(cssutils.ser.prefs))  # the user puts his own settings back, whatever they were
     cssutils.ser.prefs.useMinified()
     try:
         s.cssText
     finally:
-        cssutils.ser.prefs.useDefaults()
+        vars(cssutils.ser.prefs).clear()
+        vars(cssutils.ser.prefs).update(saved)
 
 
 POOL_QUICK_HISTORY = None  # all of the pool
@@ -241,9 +261,34 @@ def drop_env(env):
 # global-mode monitor
 
 
+REGISTRY_ATTRS = ('_defaultProfiles', '_profileNames', '_usedMacros', '_knownNames', '_rawProfiles', '_profilesProperties')
+
+
+def registry_view():
+    """the state attributes of the profile registry object (vars(cssutils.profile)), not only what its public properties answer:
+    default profiles as stored, profile names, names of the macros in force, known property names, per-profile property names"""
+    import cssutils
+    v = vars(cssutils.profile)
+    out = {}
+    for k in REGISTRY_ATTRS:
+        x = v.get(k, '<absent>')
+        if k == '_usedMacros' and isinstance(x, dict):
+            x = sorted(x)
+        elif k == '_rawProfiles' and isinstance(x, dict):
+            x = {p: {'properties': sorted(d.get('properties', {})), 'macros': sorted(d.get('macros', {}))} for p, d in x.items()}
+        elif k == '_profilesProperties' and isinstance(x, dict):
+            x = {p: sorted(d) for p, d in x.items()}
+        elif k == '_knownNames' and isinstance(x, list):
+            x = list(x)
+        out[k] = x
+    # any other attribute that appears on the registry object is state, too
+    out['other attributes'] = sorted(k for k in v if k not in REGISTRY_ATTRS and k not in ('_log',) and not k.startswith('_Profiles__'))
+    return json.loads(json.dumps(out, default=repr))
+
+
 def globals_view():
     import cssutils
-    return {'raiseExceptions': cssutils.log.raiseExceptions, 'prefs': json.loads(json.dumps(sorted(vars(cssutils.ser.prefs).items()), default=repr)),
+    return {'registry': registry_view(), 'raiseExceptions': cssutils.log.raiseExceptions, 'prefs': json.loads(json.dumps(sorted(vars(cssutils.ser.prefs).items()), default=repr)),
             'ser': id(cssutils.ser), 'profiles': list(cssutils.profile.profiles), 'defaultProfiles': json.loads(json.dumps(cssutils.profile.defaultProfiles, default=repr))}
 
 
@@ -432,7 +477,7 @@ QUICK_POOL = ['parse: well-formed sheet', 'parse: malformed sheet', 'parse: malf
               'parse: raising parser, malformed sheet', 'parse: raising parser, media junk', 'parse: comments off, not validating', 'csscombine: minify=True resolveVariables=False', 'csscombine: minify=False resolveVariables=True',
               'csscombine: minify=False resolveVariables=False', 'csscombine: undecodable', 'MediaList.appendMedium: and + ident', 'MediaQuery: and + ident',
               'MediaList.mediaText: and + ident', 'log mode: MediaList.appendMedium: and + ident', 'log mode: MediaQuery: junk after type', 'MediaQuery: rejected text', 'MediaQuery: rejected expression', 'MediaList: junk after type', 'PropertyValue: rejected text',
-              'Selector: rejected text', 'CSSMediaRule: rejected media', 'edit: rejected sheet text', 'serialise: minified then defaults']
+              'Selector: rejected text', 'CSSMediaRule: rejected media', 'edit: rejected sheet text', 'serialise: minified then defaults', 'validate: registry queries']
 TRIPLE_POOL = [n for n in QUICK_POOL if n not in ('parse: malformed style', 'parseFile: missing file', 'MediaQuery: rejected expression', 'parse: fetcher returns undecodable',
                                                    'csscombine: minify=False resolveVariables=True', 'log mode: MediaQuery: junk after type', 'parseUrl: fetcher raises', 'Selector: rejected text')]
 
@@ -474,7 +519,7 @@ def histories(ctx):  # noqa: C901
                         known_hits.add(kid)
             for m in r['monitor']:
                 kid = classify_monitor(m['call'], m['outcome'], m['diff'])
-                ctx.violation('bounded: a parse / csscombine call leaves error mode, serializer, preferences and profiles as they were',
+                ctx.violation('bounded: a parse / serialise / csscombine call leaves error mode, serializer, preferences, profiles and the state attributes of the profile registry as they were',
                               f"in history {r['names']!r}: {m['call']} ({m['outcome']}): {'; '.join(m['diff'])}", True, {'sequence': r['names'], 'call': m['call']}, known_id=kid)
         # witnesses of the recorded findings
         w1 = _witness(history_worker, (('parse: undecodable bytes, encoding given',), env, {}))
@@ -482,7 +527,7 @@ def histories(ctx):  # noqa: C901
         w2 = _witness(history_worker, (('MediaQuery: rejected text',), env, {}))
         ctx.known_finding('C12-saved-token-leak', any(k == 'PropertyValue(red)' and b != a for k, a, b in deviations(ref, w2['battery'])))
         ctx.bounded.append({'name': 'call histories', 'evaluations': len(res) * len(ref), 'distinct_nontrivial': len(kinds), 'exhaustive': False,
-                            'rule': (f'{bound}; each sequence in its own freshly forked process; afterwards a battery of {len(ref)} probes (global modes, stand-alone constructors, '
+                            'rule': (f'{bound}; each sequence in its own freshly forked process; afterwards a battery of {len(ref)} probes (first: a new profile registered after the history and validated through validate / validateWithProfile / Property.valid; then global modes, stand-alone constructors, '
                                      f'{len(REFERENCE_SHEETS)} reference sheets and {len(REFERENCE_STYLES)} style texts parsed and serialised, validation, 6 DOM edits that must raise) is compared with the '
                                      'battery of a fresh process; distinct = sets of (call, outcome) pairs'),
                             'sequences': len(res), 'probes_per_sequence': len(ref),
@@ -526,7 +571,7 @@ def modes(ctx):
                                   {'call': names[0], 'ambient': amb}, known_id=kid)
             for m in r['monitor']:
                 kid = classify_monitor(m['call'], m['outcome'], m['diff'])
-                ctx.violation('bounded: a parse / csscombine call leaves error mode, serializer, preferences and profiles as they were',
+                ctx.violation('bounded: a parse / serialise / csscombine call leaves error mode, serializer, preferences, profiles and the state attributes of the profile registry as they were',
                               f"{m['call']} ({m['outcome']}) with the user's settings {amb!r}: {'; '.join(m['diff'])}", True, {'call': m['call'], 'ambient': amb}, known_id=kid)
         stale_seen = False
         for (cfg, _), r in zip(stale, sres):
@@ -548,7 +593,7 @@ def modes(ctx):
                             'rule': (f'{len(parse_calls)} parse / parseFile / parseUrl / parseStyle / csscombine calls (returning, UnicodeDecodeError, fetcher exception, missing file, DOM exception from a raising parser) '
                                      f'x {len(ambients)} ambient settings (raise/log mode x default/minified/custom preferences x default/CSS2 default profiles), the {len(combine_calls)} csscombine calls (minify x resolveVariables among them) '
                                      f'additionally x the user\'s prefs.resolveVariables in (True, False) ({len(jobs)} calls in all), each in a fresh process: the probe battery afterwards equals that of a fresh process with the same settings; raiseExceptions, '
-                                     'vars(ser.prefs), id(ser), profile.profiles, defaultProfiles equal before and after; plus a parser object created under one mode and used under the other (16 combinations); '
+                                     'vars(ser.prefs), id(ser), profile.profiles, defaultProfiles and the state attributes of vars(cssutils.profile) (_defaultProfiles, _profileNames, _usedMacros names, _knownNames, per-profile names) equal before and after; plus a parser object created under one mode and used under the other (16 combinations); '
                                      'distinct = (call, outcome, mode) triples'),
                             'samples': [{'call': parse_calls[0], 'ambient': ambients[0]}], 'bound': 'fixed call pool x ambient grid'})
     finally:
